@@ -254,6 +254,22 @@ class Evaluator:
                 return True
         return False
 
+    def n_ListComp(self, n, env, snap, in_old):
+        out = []
+
+        def rec(gi, env):
+            if gi == len(n.generators):
+                out.append(self.ev(n.elt, env, snap, in_old))
+                return
+            gen = n.generators[gi]
+            for x in self.domain(gen, env, snap, in_old):
+                e2 = dict(env)
+                self.bind(gen.target, x, e2)
+                if all(self.ev(c, e2, snap, in_old) for c in gen.ifs):
+                    rec(gi + 1, e2)
+        rec(0, env)
+        return out
+
     # ---- quantifiers ---------------------------------------------------------------------------
     def domain(self, gen, env, snap, in_old):
         it = gen.iter
